@@ -319,7 +319,7 @@ def run(ctx):
              ("WitnessConflict",)),                  # further witnesses are ASSUMEs inside TagsGen
             ("master", dict(NameSet='{"a", "b"}', Vals=vals, WithMaster="TRUE", IgnoreOpts="{TRUE, FALSE}",
                             SelMode='"sizes"' if ctx.quick else '"subsets"'),
-             ("WitnessMasterDiverges",))]
+             ())]                                    # WitnessMasterDiverges is an ASSUME inside TagsGen
     if not ctx.quick:
         gens.append(("master, 3 names", dict(NameSet=names3, Vals=vals, WithMaster="TRUE", IgnoreOpts="{FALSE}",
                                              SelMode='"none"'), ()))
@@ -327,7 +327,7 @@ def run(ctx):
     # TLC model-checks the whole table; the replay is exhaustive on bzr / memory in thorough and a seeded sample
     # elsewhere: (plain cases on bzr and memory, master cases on bzr, any case on a git combination, annotated git,
     # 3-name master cases on bzr)
-    p_plain, p_master, p_git, p_annot, p_master3 = (1 / 3, 0.25, 1 / 16, 0.0, 0.0) if ctx.quick else \
+    p_plain, p_master, p_git, p_annot, p_master3 = (0.25, 0.15, 1 / 16, 0.0, 0.0) if ctx.quick else \
                                                    (1.0, 1.0, 0.25, 0.1, 0.5)
     for label, consts, wit in gens:
         cases = table.generate(ctx, "TagsGen", consts, witnesses=wit, label="TagsGen " + label, workers=4)
@@ -365,7 +365,7 @@ def run(ctx):
              "selector=None), x overwrite x selector (None and %s). Replay: thorough - every plain case on bzr->bzr "
              "(BasicTags, re-opened branches) and MemoryTags, every 2-name master case and a seeded half of the 3-name "
              "master cases on bzr->bzr with a bound destination, a seeded quarter of the cases on each of git->git, "
-             "bzr->git, git->bzr, a tenth with annotated git tags; quick - seeded 1/3 of the plain and 1/4 of the master "
+             "bzr->git, git->bzr, a tenth with annotated git tags; quick - seeded 1/4 of the plain and 15% of the master "
              "cases on bzr / memory, 1/16 on each git combination. Store/Load: every dictionary x %d hostile name schemes "
              "x revision-id schemes via _set_tag_dict and via set_tag (thorough also on disk), re-opened. Non-trivial = "
              "source not empty and different from a destination (merge) / dictionary not empty (store)"
